@@ -6,13 +6,15 @@ from .common import Run
 from .c09 import gen_version, NAMES, FIX
 
 PROP = "C12"
-MODULE = "PLS.Props.C12I"      # imports C12T; the lock theorems (PLS.Props.C12) are built with the library
+MODULE = "PLS.Props.C12S"      # imports C12I, C12T and C12
 THEOREMS = ["PLS.Locks.C12_no_deadlock", "PLS.Locks.C12_progress", "PLS.Locks.C12_discOK_sound",
             "PLS.Locks.C12_reentrant_write_self_deadlocks", "PLS.Locks.C12_reentrant_write_other_shard_is_not_blocked",
             "PLS.Locks.C12_opposite_orders_deadlock", "PLS.Locks.C12_read_down_plus_write_up_deadlocks",
             "PLS.C12_dfs_terminates", "PLS.C12_dfs_fuel_irrelevant", "PLS.C12_all_roots_complete",
             "PLS.C12_imported_fuel_irrelevant", "PLS.C12_imported_depth_bounded",
-            "PLS.DfsT.step_decreases", "PLS.ImpT.imported_stable", "PLS.ImpT.imported_post"]
+            "PLS.C12_import_scan_fuel_irrelevant",
+            "PLS.DfsT.step_decreases", "PLS.ImpT.imported_stable", "PLS.ImpT.imported_post", "PLS.ScanT.importScan_stable",
+            "PLS.ScanT.resolveModule_exists"]
 RULE = ("(A) lock discipline: every (held guards, blocking request) pair recorded by the instrumented dashmap — from single "
         "operations of the library API on generated workspaces (plsvc probes) and from the real server driven over stdio "
         "through every request kind with PLSV_LOCK_TRACE (providers exist only in the binary) — abstracted to map level "
